@@ -216,7 +216,7 @@ impl BuiltInFunctionList {
         }
     }
 
-    pub(crate) fn _string_split(arguments: Vec<DataType>, lists: &mut Vec<Vec<DataType>>) -> Result<DataType, String> {
+    pub(crate) fn _string_split(arguments: Vec<DataType>) -> Result<Vec<DataType>, String> {
         if arguments.len() == 2 {
             let string = arguments[0].clone();
             let split_by = arguments[1].clone();
@@ -231,8 +231,7 @@ impl BuiltInFunctionList {
                     }
                     let splitted_string: Vec<DataType> = splitted_string.iter()
                         .map(|s| DataType::String(String::from(s.clone()))).collect();
-                    lists.push(splitted_string);
-                    return Ok(DataType::List(lists.len() - 1));
+                    return Ok(splitted_string);
                 },
                 _ => return Err(format!("_স্ট্রিং-স্প্লিট()); functions arguments must be string")),
             }
